@@ -23,8 +23,13 @@ MANIFEST = {
             "translations / orthonormal rotations is conservative at every level. Executed at Float it "
             "must reproduce the real CalcSafetyDistance functor on all 17 surface classes and "
             "OrangeTrackView::find_safety on OrangeParams geometries built from the op line "
-            "bit-for-bit. An impl-side oracle compares the real safety with the real distance to "
-            "boundary along 200 (per surface) / 1000 (per geometry) directions.",
+            "bit-for-bit, through BOTH overloads find_safety() and find_safety(max_step) (the one "
+            "Urban MSC calls; as written it forwards — pattern-checked by tools/gen/safety.py, which "
+            "also regenerates the per-class simple_safety table and the consumers' call sites). An "
+            "impl-side oracle compares the real safety with the real distance to boundary along 200 "
+            "(per surface) / 1000 (per geometry) directions, with max_step log-uniform over 1e-3..1e3 "
+            "x geometry scale, incl. points just inside a daughter's outer wall with the deepest "
+            "level's faces far away: min(safety(max),max) <= distance and == min(safety(),max).",
     "design_ref": "DESIGN.md §6 C11",
     "note": "Proved at ℝ: floating-point rounding is not modelled (the Float run measures it). "
             "Hypotheses: unit plane normal, r² ≥ 0, point not at the sphere centre / cylinder axis "
@@ -225,10 +230,77 @@ def gen_levels(rng, pos, oracle=False):
     return out, desc
 
 
-def gen_find(rng, oracle=False):
+def log_uniform(rng, lo, hi):
+    return math.exp(math.log(lo) + rng.unit() * (math.log(hi) - math.log(lo)))
+
+
+def gen_parent_near(rng, pos):
+    """2–4 nested universes in which ONE shallower level has a face very near the point (e.g. the
+    outer wall of the daughter, which only the parent knows) while every other level — in
+    particular the deepest — has its faces far away.  Returns (level strings, desc, near, far)."""
+    nlev = rng.range(2, 4)
+    knear = rng.below(nlev - 1)                 # never the deepest level
+    near = log_uniform(rng, 1e-3, 2.0)
+    far = log_uniform(rng, 20.0, 400.0)
+    out, desc = [], []
+    p = list(pos)
+    for k in range(nlev):
+        if k == 0:
+            xf = ("n",)
+        else:
+            c = rng.below(3)
+            xf = ("n",) if c == 0 else ("t", [rnd(rng, 3), rnd(rng, 3), rnd(rng, 3)]) if c == 1 else \
+                ("x", rot_matrix(rng), [rnd(rng, 3), rnd(rng, 3), rnd(rng, 3)])
+        p = xf_down(xf, p)
+        if 0 < k < nlev - 1 and k != knear and rng.chance(1, 3):
+            grids = []
+            for a in range(3):
+                grids.append([p[a] - far * (2 + rng.unit()), p[a] - far * (1 + rng.unit() * 0.5),
+                              p[a] + far * (1 + rng.unit() * 0.5), p[a] + far * (2 + rng.unit())])
+            vid = (1 * 3 + 1) * 3 + 1
+            out.append("%s r %d %s" % (xf_str(xf), vid, " ".join("%d %s" % (len(g), H(g)) for g in grids)))
+            desc.append("rect-far")
+            continue
+        faces = []
+        dist = near if k == knear else far
+        kind = rng.below(3)
+        n = rnd_dir(rng)
+        sgn = rng.choice([1.0, -1.0])
+        if kind == 0:       # plane at distance `dist`
+            faces.append(("p", n + [sum(n[i] * p[i] for i in range(3)) + sgn * dist]))
+        elif kind == 1:     # inside a sphere, `dist` from its wall
+            R = dist + log_uniform(rng, 0.5, 50.0)
+            c = [p[i] - n[i] * (R - dist) for i in range(3)]
+            faces.append(("s", c + [R * R]))
+        else:               # axis-aligned plane
+            a = rng.below(3)
+            faces.append(("p" + AXES[a], [p[a] + sgn * dist]))
+        if k != knear and rng.chance(1, 2):     # a second far face
+            faces.append(("s", [p[i] + (rng.unit() - 0.5) for i in range(3)] + [(far * 1.5) ** 2]))
+        out.append("%s u 0%s" % (xf_str(xf), "".join(" ; " + surf_str(t, d) for t, d in faces)))
+        desc.append(("NEAR:" if k == knear else "far:") + ",".join(t for t, _ in faces))
+    return out, desc, near, far
+
+
+def gen_find(rng, oracle=False, parent_near=False):
+    if parent_near:
+        pos = [(rng.unit() * 2 - 1) * 40 for _ in range(3)]
+        lv, desc, near, far = gen_parent_near(rng, pos)
+        return "%s / %s" % (H(pos), " / ".join(lv)), desc, (near, far)
     pos = [(rng.unit() * 2 - 1) * 4 for _ in range(3)] if oracle else [rnd(rng, 5), rnd(rng, 5), rnd(rng, 5)]
     lv, desc = gen_levels(rng, pos, oracle)
-    return "%s / %s" % (H(pos), " / ".join(lv)), desc
+    return "%s / %s" % (H(pos), " / ".join(lv)), desc, None
+
+
+def gen_max(rng, scale, window=None):
+    """max_step log-uniform over 1e-3 … 1e3 × scale; with a (near, far) window half of the time
+    strictly between the nearest parent-level boundary and the deepest level's faces"""
+    if window and rng.chance(1, 2):
+        return log_uniform(rng, window[0] * 1.5, window[1] * 0.5)
+    k = rng.below(12)
+    if k == 0:
+        return math.inf
+    return log_uniform(rng, 1e-3 * scale, 1e3 * scale)
 
 
 # ------------------------------------------------------------------------------------ oracles
@@ -281,13 +353,19 @@ def surface_oracle(exe, rng, n_surf, n_dir):
 
 
 def geo_oracle(exe, rng, n_syn, n_real_pts, n_dir):
-    """real find_safety vs min over n_dir directions of the real find_next_step, on synthetic nested
-    geometries and on the repository's own test geometries"""
+    """real find_safety() and find_safety(max_step) vs min over n_dir directions of the real
+    find_next_step, on synthetic nested geometries (incl. points near a parent-level wall with the
+    deepest level's faces far away) and on the repository's own test geometries (random points,
+    the origin, lattice points, and points `eps` before the next boundary of a random ray).
+    Predicates: 0 ≤ safety ≤ distance;  min(safety(max), max) ≤ distance;
+    min(safety(max), max) == min(safety(), max)."""
     lines, meta = [], []
-    for _ in range(n_syn):
-        body, desc = gen_find(rng, oracle=True)
-        lines.append("gfind %s | %d %d" % (body, n_dir, rng.below(1 << 30)))
-        meta.append(("syn", "/".join(desc)))
+    for j in range(n_syn):
+        pn = (j % 2 == 1)
+        body, desc, window = gen_find(rng, oracle=True, parent_near=pn)
+        mx = gen_max(rng, 5.0, window)
+        lines.append("gfind %s | %d %d %s" % (body, n_dir, rng.below(1 << 30), hx(mx)))
+        meta.append(("syn", ("parent-near:" if pn else "") + "/".join(desc), None, mx))
     _, out = vlib.run_lines([exe], lines, timeout=3000)
     # the repository's own geometries, one process per file (loading the involute inputs crashes
     # inside OrangeParams — their tests are DISABLED_ upstream — and must not take the rest down)
@@ -303,6 +381,7 @@ def geo_oracle(exe, rng, n_syn, n_real_pts, n_dir):
         bb = [fl(v) for v in w[w.index("bbox") + 1:]]
         lo = [max(bb[2 * i], -60.0) for i in range(3)]
         hi = [min(bb[2 * i + 1], 60.0) for i in range(3)]
+        scale = max(1e-3, 0.5 * max(hi[i] - lo[i] for i in range(3)))
         fl_lines = ["geo " + f]
         fl_meta = [("load", os.path.basename(f))]
         for j in range(n_real_pts):
@@ -315,50 +394,77 @@ def geo_oracle(exe, rng, n_syn, n_real_pts, n_dir):
             elif k == 1:    # near the middle of the geometry
                 p = [0.5 * (lo[i] + hi[i]) + (rng.unit() - 0.5) * 0.2 * (hi[i] - lo[i])
                      for i in range(3)]
-            fl_lines.append("gscan %s %d %d" % (H(p), n_dir, rng.below(1 << 30)))
-            fl_meta.append(("real", os.path.basename(f), p))
+            mx = gen_max(rng, scale)
+            if j > 0 and j % 2 == 0:
+                # a point just inside the next wall along a random ray (walls of daughters are
+                # known to the parent level only)
+                eps = log_uniform(rng, 1e-4, 1.0)
+                if rng.chance(1, 2):
+                    mx = log_uniform(rng, eps * 1.5, max(eps * 3, scale))
+                fl_lines.append("gnear %s %s %d %d %s" % (H(p + rnd_dir(rng)), hx(eps), n_dir,
+                                                          rng.below(1 << 30), hx(mx)))
+            else:
+                fl_lines.append("gscan %s %d %d %s" % (H(p), n_dir, rng.below(1 << 30), hx(mx)))
+            fl_meta.append(("real", os.path.basename(f), p, mx))
         _, o = vlib.run_lines([exe], fl_lines, timeout=3000)
         o = (o + ["<crashed>"] * len(fl_lines))[:len(fl_lines)]
         lines += fl_lines
         meta += fl_meta
         out += o
     fails, cases, nontrivial, by_geo = [], 0, 0, {}
+    stats = {"max_below_safety": 0, "max_above_safety": 0, "near_wall_points": 0,
+             "deeper_levels": 0, "capped_by_max": 0}
     cur = None
     for l, m, o in zip(lines, meta, out):
         if m[0] == "load":
             cur = l
             continue
         w = dict(kv.split("=", 1) for kv in o.split() if "=" in kv)
-        if "safety" not in w:
-            by_geo.setdefault(m[1] if m[0] == "real" else "synthetic", [0, 0, 0])[2] += 1
+        gname = m[1] if m[0] == "real" else ("synthetic-parent-near" if m[1].startswith("parent-near")
+                                             else "synthetic")
+        g = by_geo.setdefault(gname, [0, 0, 0])
+        if "safety" not in w or "safetymax" not in w:
+            g[2] += 1
             continue
-        s, dist = fl(w["safety"]), fl(w["mindist"])
+        s, sm, dist, mx = fl(w["safety"]), fl(w["safetymax"]), fl(w["mindist"]), m[3]
+        pt = [fl(v) for v in w["pos"].split(",")] if "pos" in w else m[2]
         cases += 1
-        g = by_geo.setdefault(m[1] if m[0] == "real" else "synthetic", [0, 0, 0])
         g[0] += 1
         if s > 0:
             nontrivial += 1
             g[1] += 1
+        stats["max_below_safety" if mx < s else "max_above_safety"] += 1
+        stats["near_wall_points"] += 1 if ("pos" in w or m[1].startswith("parent-near")) else 0
+        stats["deeper_levels"] += 1 if int(w.get("level", "0")) > 0 else 0
+        stats["capped_by_max"] += 1 if sm >= mx else 0
         tol = 1e-8 * (1.0 + dist) + 1e-8       # the geometry's own Tolerance<>::from_default()
         rep = {"harness": "harness/safety.cc", "ops": ([cur] if m[0] == "real" else []) + [l],
-               "impl_output": o, "safety": s, "min_distance": dist}
-        if math.isnan(s) or s < 0:
-            fails.append(("find_safety-negative-or-nan", m[1], rep))
+               "impl_output": o, "safety": s, "safety_max_overload": sm, "max_step": mx,
+               "min_distance": dist, "point": pt}
+        what = None
+        if math.isnan(s) or s < 0 or math.isnan(sm) or sm < 0:
+            what = "find_safety-negative-or-nan"
         elif s > dist + tol:
             what = "find_safety-exceeds-boundary-distance"
-            if math.isinf(s) and m[0] == "real":
-                # singular point of a face (sphere centre / cylinder axis)?  Then a tiny
-                # displacement gives a finite, conservative answer.
-                q = [m[2][0] + 1e-7, m[2][1] + 2e-7, m[2][2] + 3e-7]
-                probe = "gscan %s %d 7" % (H(q), n_dir)
-                _, o2 = vlib.run_lines([exe], [cur, probe])
-                w2 = dict(kv.split("=", 1) for kv in (o2[1] if len(o2) > 1 else "").split()
-                          if "=" in kv)
-                if "safety" in w2 and fl(w2["safety"]) <= fl(w2["mindist"]) * (1 + 1e-8) + 1e-8:
-                    what = KEY_CENTER
-                    rep["displaced_probe"] = {"op": probe, "impl_output": o2[1]}
-            fails.append((what, m[1], rep))
-    return cases, nontrivial, loaded, crashed, by_geo, fails
+        elif min(sm, mx) > dist + tol:
+            what = "find_safety(max_step)-exceeds-boundary-distance"
+        elif min(sm, mx) != min(s, mx):
+            what = "find_safety(max_step)-disagrees-with-find_safety()-below-max_step"
+        if what is None:
+            continue
+        if math.isinf(s) and m[0] == "real" and pt is not None:
+            # singular point of a face (sphere centre / cylinder axis)?  Then a tiny
+            # displacement gives a finite, conservative answer.
+            q = [pt[0] + 1e-7, pt[1] + 2e-7, pt[2] + 3e-7]
+            probe = "gscan %s %d 7" % (H(q), n_dir)
+            _, o2 = vlib.run_lines([exe], [cur, probe])
+            w2 = dict(kv.split("=", 1) for kv in (o2[1] if len(o2) > 1 else "").split()
+                      if "=" in kv)
+            if "safety" in w2 and fl(w2["safety"]) <= fl(w2["mindist"]) * (1 + 1e-8) + 1e-8:
+                what = KEY_CENTER
+                rep["displaced_probe"] = {"op": probe, "impl_output": o2[1]}
+        fails.append((what, gname if m[0] == "real" else m[1], rep))
+    return cases, nontrivial, loaded, crashed, by_geo, stats, fails
 
 
 # ------------------------------------------------------------------------------------ run
@@ -374,12 +480,18 @@ def gen_lines(rng, n_surf, n_find):
                     ("kz", 4), ("sq", 7), ("gq", 10)]:
         lines.append("flag %s |" % surf_str(tag, [1.0] * nd))
         kinds["flag"] = kinds.get("flag", 0) + 1
-    for _ in range(n_find):
-        body, desc = gen_find(rng)
-        lines.append("find " + body)
-        k = "find:levels=%d" % len(desc)
+    for j in range(n_find):
+        pn = (j % 4 == 3)
+        body, desc, window = gen_find(rng, parent_near=pn)
+        if j % 2 == 0:
+            lines.append("find " + body)
+            k = "find:levels=%d" % len(desc)
+        else:
+            lines.append("findmax %s %s" % (hx(gen_max(rng, 5.0, window)), body))
+            k = "findmax:levels=%d%s" % (len(desc), ":parent-near" if pn else "")
         kinds[k] = kinds.get(k, 0) + 1
-    lines += ["safety zz 1 | 2", "safety s 1 2 | 3", "frob", "", "find 1 2", "flag sc |"]
+    lines += ["safety zz 1 | 2", "safety s 1 2 | 3", "frob", "", "find 1 2", "flag sc |",
+              "findmax 1 2 3", "findmax zz 1 2 3 / n u 0"]
     return lines, kinds
 
 
@@ -409,6 +521,16 @@ def run(ctx):
         ctx.coverage.update({"evaluations": 0, "distinct_nontrivial": 0})
         return LEVEL
     rng = ctx.rng
+    # which overload each consumer calls (same extraction as tools/gen/safety.py, which writes it
+    # to Generated/SafetySource.lean; theorem consumers_call_max_overload is checked against it)
+    try:
+        from gen import safety as gen_safety
+        consumers = [{"file": rel, "call": k, "args": txt,
+                      "overload": "find_safety(real_type max_step)" if n == 1 else
+                                  "find_safety()" if n == 0 else f"{n} arguments"}
+                     for rel, k, n, txt in gen_safety.consumer_calls()]
+    except Exception as e:   # reported through the translator error as well
+        consumers = [{"error": repr(e)}]
     corp = corpus_lines()
     lines, kinds = gen_lines(rng, 20000 if quick else 300000, 1500 if quick else 20000)
     lines = corp + lines
@@ -435,7 +557,7 @@ def run(ctx):
                       f"model={diverged[0]['model'][:60]})")
     mult = 4 if broken else 1
     n_case, n_or, sfails = surface_oracle(exe, rng, (250 if quick else 3000) * mult, 200)
-    g_case, g_nontriv, g_loaded, g_crashed, by_geo, gfails = geo_oracle(
+    g_case, g_nontriv, g_loaded, g_crashed, by_geo, g_stats, gfails = geo_oracle(
         exe, rng, (150 if quick else 1500) * mult, (40 if quick else 400) * mult, 1000)
     seen = set()
     for what, tag, l, o, info in sfails:
@@ -450,7 +572,10 @@ def run(ctx):
                                   "info": info,
                                   "values": [fl(w) if len(w) == 16 else w for w in l.split()[1:]]})
     for what, geo, rep in gfails:
-        key = what if what == KEY_CENTER else "oracle:" + what + ":" + geo.replace(" ", "_")[:60]
+        gkey = geo if geo.endswith(".json") else \
+            "synthetic-parent-near" if geo.startswith("parent-near") else "synthetic"
+        rep["geometry"] = geo
+        key = what if what == KEY_CENTER else "oracle:" + what + ":" + gkey
         if key in seen:
             continue
         seen.add(key)
@@ -458,7 +583,8 @@ def run(ctx):
                             f"cylinder axis although a boundary is {rep['min_distance']!r} away"
                             if what == KEY_CENTER else
                             f"real OrangeTrackView on {geo}: {what} "
-                            f"(safety {rep['safety']!r} > distance {rep['min_distance']!r})"), rep)
+                            f"(find_safety() {rep['safety']!r}, find_safety({rep['max_step']!r}) "
+                            f"{rep['safety_max_overload']!r}, boundary distance {rep['min_distance']!r})"), rep)
     if broken and not ctx.violations:
         ctx.violation("unproved", "; ".join(broken)[:700],
                       {"no_longer_checks": broken, "diverging_ops": diverged[:3]}, found_input=False)
@@ -472,11 +598,14 @@ def run(ctx):
         "the CSG logic of a volume is not part of the safety computation: the theorems are about "
         "the senses of all faces of the volume (which determine membership); volumes reached through "
         "BIH/logic evaluation are exercised by the geometry oracle only",
+        "find_safety(max_step) is modelled as written (forwards to find_safety(), argument ignored); "
+        "theorem max_overload_contract_suffices states the weaker contract min(r,max)=min(safety,max) "
+        "under which consumers remain safe, and the oracle evaluates that contract on the real code",
         "per-level positions are the transform-down chain of OrangeTrackView::operator= "
         "(positions after move_internal differ from it by rounding only)",
     ]
     ctx.coverage.update({
-        "evaluations": len(lines) + n_or + g_case * 1001, "distinct_nontrivial": len(distinct),
+        "evaluations": len(lines) + n_or + g_case * 1002, "distinct_nontrivial": len(distinct),
         "rule": "random surfaces of all 17 quadric classes; points random / integer / exactly on the "
                 "surface / at and near the centre or axis / far away; synthetic geometries of 1–4 "
                 "nested universes (unit volumes with 0–4 faces and any incoming flags, rect arrays, "
@@ -488,7 +617,8 @@ def run(ctx):
         "geometry_oracle_cases": g_case, "geometry_oracle_positive_safety": g_nontriv,
         "geometry_oracle_files_loaded": g_loaded, "geometry_files_not_loadable": g_crashed,
         "geometry_oracle_by_geometry(cases,positive,not_inside)": by_geo,
-        "geometry_oracle_failures": len(gfails),
+        "geometry_oracle_failures": len(gfails), "geometry_oracle_max_step_stats": g_stats,
+        "consumer_call_sites": consumers,
         "samples": [lines[len(corp)], lines[len(corp) + 1], lines[-7]],
         "correspondence_broken": broken,
     })
